@@ -3,6 +3,7 @@
 package gpbft
 
 import (
+	"context"
 	"time"
 
 	sym "github.com/filecoin-project/go-f3/internal/verifsym"
@@ -980,4 +981,47 @@ func VerifCore_LateQuality() {
 		sym.Cover("only-the-base-is-backed")
 	}
 	sym.Assert(mb.Payload.Phase == PREPARE_PHASE && mb.Payload.Value.Eq(backed), "R6: adopts the best-ticket CONVERGE value that is a QUALITY-backed prefix of its input, even when the QUALITY votes arrived late")
+}
+
+// VerifC15_ParticipantTruncation: whatever chain the host proposes, the
+// participant starts the instance with its first min(len, 128) tipsets (the
+// protocol maximum), refuses an empty or malformed chain with an error, and
+// proposes nothing in that case.
+func VerifC15_ParticipantTruncation() {
+	n := []int{0, 1, 2, 127, 128, 129, 200}[sym.Choice("host-chain-length", 7)]
+	malformed := n >= 2 && sym.Bool("malformed")
+	var chain *ECChain
+	if n == 0 {
+		chain = &ECChain{}
+	} else {
+		var tags []byte
+		for i := 1; i < n; i++ {
+			tags = append(tags, byte(i))
+		}
+		chain = VerifChain(10, 1, tags...)
+		for i, ts := range chain.TipSets { // distinct keys beyond 255 tipsets are not needed: n <= 200
+			ts.Key = TipSetKey{byte(i), byte(i >> 8), 7}
+		}
+		if malformed {
+			chain.TipSets[1].Epoch = chain.TipSets[0].Epoch // not increasing
+		}
+	}
+	e := newVerifEnv(chain, false)
+	sym.Assert(e.p.StartInstanceAt(verifInstance, e.h.now) == nil, "StartInstanceAt succeeds")
+	err := e.p.ReceiveAlarm(context.Background())
+	sym.Cover("started")
+	if n == 0 || malformed {
+		sym.Assert(err != nil && len(e.h.broadcasts) == 0, "an empty or malformed host chain is refused and nothing is proposed")
+		return
+	}
+	sym.Assert(err == nil && len(e.h.broadcasts) == 1, "the instance starts with one QUALITY")
+	if err != nil || len(e.h.broadcasts) != 1 {
+		return
+	}
+	v := e.h.broadcasts[0].Payload.Value
+	want := min(n, ChainMaxLen)
+	if n > ChainMaxLen {
+		sym.Cover("truncated")
+	}
+	sym.Assert(v.Len() == want && chain.HasPrefix(v) && v.Validate() == nil, "the proposal is the first min(len, 128) tipsets of the host's chain")
 }
